@@ -18,7 +18,10 @@ B(r) == SeqRange(r.before)
 A(r) == SeqRange(r.after)
 
 ReadOnlyKinds == {"list", "all", "count", "plid", "src", "srcex", "id", "bmcid", "listhex", "allrev",
-                  "listext", "file", "filehex", "deletebadid"}
+                  "listext", "file", "filehex", "deletebadid",
+                  \* no directory named (empty string), or a path that names a directory which does not exist
+                  \* (through a link and back up): nothing is done, anywhere
+                  "emptypath_deleteall", "emptypath_delete", "emptypath_json", "dotdot_deleteall", "dotdot_delete"}
 
 \* kind "multi": an invocation naming any combination of mode options (r.named, a sequence of mode names;
 \* r.clean).  The tree must change as ONE of the named modes allows; with no mode named nothing changes.
